@@ -44,6 +44,9 @@ def main(argv=None):
         traceback.print_exc()
         print("no check for %s" % a.pid)
         return 2
+    import gc
+    gc.collect()
+    gc.freeze()     # imported modules never need re-scanning: makes per-execution gc.collect() cheap
     try:
         if a.replay:
             with open(a.replay) as fh:
